@@ -173,7 +173,9 @@ var keyMuts = []mut{
 	}},
 	{"key/no-type", func(r *rand.Rand, p M) { delete(firstKey(p), "type") }},
 	{"key/no-id", func(r *rand.Rand, p M) { delete(firstKey(p), "id") }},
-	{"key/type-unknown", func(r *rand.Rand, p M) { firstKey(p)["type"] = pick(r, []string{"", "JsonWebKey2021", "jsonwebkey2020", "RsaVerificationKey2018"}) }},
+	{"key/type-unknown", func(r *rand.Rand, p M) {
+		firstKey(p)["type"] = pick(r, []string{"", "JsonWebKey2021", "jsonwebkey2020", "RsaVerificationKey2018"})
+	}},
 	{"key/both-materials", func(r *rand.Rand, p M) {
 		firstKey(p)["publicKeyJwk"] = jwkNoEmptyY(opb.NewKey(r, opb.P256).JWK())
 		firstKey(p)["publicKeyBase58"] = "GY4GunSXBPBfhLCzDL7iGmP5dR3sBDCJZkkaGK8VgYQf"
